@@ -51,6 +51,9 @@ BIN = ("read_io_header", "read_io_footer", "write_io_header", "write_io_footer",
 
 
 def _translate(k):
+    if k == "context":
+        from harness import cxx2ctx
+        return cxx2ctx.translate(str(C.REPO)), {"scalars": [], "arrays": []}
     if k in BIN:
         from harness import cxx2bin
         return cxx2bin.translate(str(C.REPO), k), {"scalars": [], "arrays": []}
@@ -70,6 +73,8 @@ def _translate(k):
 
 
 def _where(k):
+    if k == "context":
+        return "array.hpp / algebra/matrix.hpp / algebra/vector.hpp / utility/nd_size.hpp element accessors"
     if k in BIN:
         from harness import cxx2bin
         return cxx2bin.KERNELS[k]
